@@ -47,6 +47,10 @@ def one(path):
         m.check_accepts_rejects_checker(ctx, rep, P('notebook.check_automaton_accepts_rejects'))
         m.check_nfa_run(ctx, rep, P('nfa_algorithms.nfa_simulate_word'))
         m.check_pda_run(ctx, rep, P('pda_algorithms.pda_simulate_word'))
+        m.check_language_helpers(ctx, rep, {n: P('language_algorithms.' + n) for n in ('language_no_prefix', 'language_no_extend', 'language_reverse', 'concatenation', 'words_up_to_n')})
+        m.check_cfg_membership(ctx, rep, P('cfg_algorithms.cfg_accepts_word'))
+        m.check_pda_to_cfg(ctx, rep, P('pda_algorithms.pda_to_cfg'))
+        m.check_tm(ctx, rep, P('tm_algorithms.tm_accepts_word'), P('tm_algorithms.tm_simulate_word'))
         fs = []
         for f0 in ctx.prog.functions.values():
             st = [f0]
